@@ -2,7 +2,9 @@ package proggram
 
 import (
 	"database/sql"
+	"encoding/json"
 	"fmt"
+	"net"
 	"regexp"
 	"strconv"
 	"time"
@@ -45,6 +47,10 @@ const (
 	CGValuer
 	CSub
 	CSubRaw
+	CRawJSON
+	CNetIP
+	CNamedBytes
+	CByteArray
 	NumClasses
 )
 
@@ -54,6 +60,7 @@ var ClassName = []string{
 	"nullstring-valid", "nullstring-invalid", "bytes", "time", "slice0", "slice1", "slice2",
 	"slice3-int", "array2", "iface-slice2", "nested-slice", "expr-with-args", "driver-valuer",
 	"driver-valuer-slice", "gorm-valuer", "subquery", "subquery-raw",
+	"json-rawmessage", "net-ip", "named-byte-slice", "byte-array",
 }
 
 // StringClasses are the classes whose Go value is a string.
@@ -69,7 +76,13 @@ var AnyClasses = func() []Class {
 }()
 
 // PathClasses: one representative per code path (used for 2-deviation runs).
-var PathClasses = []Class{CStr, CQMark, CInt, CNilPtr, CNullInvalid, CBytes, CSlice0, CSlice2, CNested, CExpr, CDValuerSlice, CGValuer, CSub, CSubRaw}
+var PathClasses = []Class{CStr, CQMark, CInt, CNilPtr, CNullInvalid, CBytes, CSlice0, CSlice2, CNested, CExpr, CDValuerSlice, CGValuer, CSub, CSubRaw, CNamedBytes, CByteArray}
+
+// NB is a named byte-slice type that is neither []byte nor a driver.Valuer.
+type NB []byte
+
+// BA is a byte array.
+type BA [16]byte
 
 // Val is one marked argument value.
 type Val struct {
@@ -163,6 +176,31 @@ func Make(c Class, id int, base *gorm.DB) Val {
 			per[i] = b[i]
 		}
 		v.V, v.Alts, v.Markers = b, [][]interface{}{{b}, per}, []string{tok(id, 0)}
+	case CRawJSON, CNetIP, CNamedBytes, CByteArray:
+		// byte-kind values that reach AddVar's reflect branch (not the []byte
+		// case, not a Valuer): one bound value, or one per byte in an expanded list
+		b := []byte(`{"k":"` + tok(id, 0) + `'?"}`)
+		var val interface{}
+		switch c {
+		case CRawJSON:
+			val = json.RawMessage(b)
+		case CNetIP:
+			val = net.IP(b)
+		case CNamedBytes:
+			val = NB(b)
+		default:
+			var a BA
+			for i := range a {
+				a[i] = '?'
+			}
+			copy(a[:], tok(id, 0))
+			val, b = a, a[:]
+		}
+		per := make([]interface{}, len(b))
+		for i := range b {
+			per[i] = b[i]
+		}
+		v.V, v.Alts, v.Markers = val, [][]interface{}{{val}, per}, []string{tok(id, 0)}
 	case CTime:
 		t := timeOf(id, 0)
 		v.V, v.Alts, v.Markers = t, one(t), []string{fmt.Sprintf("%04d-01-", 3000+id)}
